@@ -23,80 +23,143 @@ theorem expand_terminates (env : List (List Nat)) (str : List Nat) (h : 0 ∉ st
 theorem expand_eq_spec (env : List (List Nat)) (str : List Nat) (h : 0 ∉ str) :
     expand env str = some (spec env str) := by
   have := loop_eq env str h (str.length + 1) 0 0 [] (Nat.le_refl _) (Nat.zero_le _) (by omega)
-  simpa [expand] using this
+  simpa [expand, spec, prevDelimAt] using this
 
-/-! ## what the specification says, token by token -/
+/-! ## what the specification says, token by token
+
+`specFrom env prevDelim rest` is the expansion of the remainder `rest` of a string, `prevDelim`
+telling whether the byte before it is the start of the string or a path delimiter
+(`spec env str = specFrom env true str`). -/
+
+/-- Whether the last byte of `pre` is a path delimiter (`b` when `pre` is empty). -/
+def endsDelim (b : Bool) (pre : List Nat) : Bool :=
+  match pre.getLast? with
+  | none => b
+  | some c => isPathDelim c
+
+/-- Text without `$` and `~` is copied unchanged, and scanning continues behind it. -/
+theorem spec_plain_prefix (env : List (List Nat)) (b : Bool) (pre rest : List Nat)
+    (h1 : 36 ∉ pre) (h2 : 126 ∉ pre) :
+    specFrom env b (pre ++ rest) = pre ++ specFrom env (endsDelim b pre) rest := by
+  induction pre generalizing b with
+  | nil => simp [endsDelim]
+  | cons c pre ih =>
+    have hc1 : c ≠ 36 := fun hc => h1 (by simp [hc])
+    have hc2 : c ≠ 126 := fun hc => h2 (by simp [hc])
+    rw [List.cons_append, specFrom]
+    simp only [hc1, hc2, false_and, if_false]
+    rw [ih _ (fun hm => h1 (List.mem_cons_of_mem _ hm)) (fun hm => h2 (List.mem_cons_of_mem _ hm))]
+    congr 2
+    cases pre with
+    | nil => simp [endsDelim]
+    | cons d ds =>
+      simp only [endsDelim, List.getLast?_cons_cons]
+      cases h : (d :: ds).getLast? with
+      | none => simp at h
+      | some x => rfl
 
 /-- Text without `$` and `~` is copied unchanged. -/
 theorem spec_plain (env : List (List Nat)) (str : List Nat) (h1 : 36 ∉ str) (h2 : 126 ∉ str) :
     spec env str = str := by
-  induction str with
-  | nil => simp [spec]
-  | cons c rest ih =>
-    have hc1 : c ≠ 36 := fun hc => h1 (by simp [hc])
-    have hc2 : c ≠ 126 := fun hc => h2 (by simp [hc])
-    rw [spec]
-    simp only [hc1, hc2, false_and, if_false]
-    rw [ih (fun hm => h1 (List.mem_cons_of_mem _ hm)) (fun hm => h2 (List.mem_cons_of_mem _ hm))]
+  have := spec_plain_prefix env true str [] h1 h2
+  simpa [spec, specFrom] using this
 
 /-- A `$NAME` reference whose variable is set is replaced by the value, verbatim (the value is
 not rescanned), and scanning continues after the longest name. -/
-theorem spec_ref_set (env : List (List Nat)) (name post v : List Nat)
+theorem spec_ref_set (env : List (List Nat)) (b : Bool) (name post v : List Nat)
     (hne : name ≠ []) (hn : ∀ c ∈ name, isVarChar c = true) (hp : isVarChar (post.headD 0) = false)
     (hv : findEnv env name = some v) :
-    spec env (36 :: (name ++ post)) = v ++ spec env post := by
+    specFrom env b (36 :: (name ++ post)) = v ++ specFrom env false post := by
   obtain ⟨ht, hdw⟩ := takeWhile_append_of_headD (p := isVarChar) name post hn hp
   have hhd : isVarChar ((name ++ post).headD 0) = true := by
     cases name with
     | nil => exact absurd rfl hne
     | cons x xs => exact hn x (by simp)
-  rw [spec]
+  rw [specFrom]
   simp only [hhd, and_self, if_true, ht, hdw]
   simp [varText, hv]
 
 /-- A reference to an unset variable is left as written. -/
-theorem spec_ref_unset (env : List (List Nat)) (name post : List Nat)
+theorem spec_ref_unset (env : List (List Nat)) (b : Bool) (name post : List Nat)
     (hne : name ≠ []) (hn : ∀ c ∈ name, isVarChar c = true) (hp : isVarChar (post.headD 0) = false)
     (hv : findEnv env name = none) :
-    spec env (36 :: (name ++ post)) = 36 :: name ++ spec env post := by
+    specFrom env b (36 :: (name ++ post)) = 36 :: name ++ specFrom env false post := by
   obtain ⟨ht, hdw⟩ := takeWhile_append_of_headD (p := isVarChar) name post hn hp
   have hhd : isVarChar ((name ++ post).headD 0) = true := by
     cases name with
     | nil => exact absurd rfl hne
     | cons x xs => exact hn x (by simp)
-  rw [spec]
+  rw [specFrom]
   simp only [hhd, and_self, if_true, ht, hdw]
   simp [varText, hv]
 
 /-- A `$` not followed by a name character (lowercase, brace, end of string …) is copied. -/
-theorem spec_dollar_literal (env : List (List Nat)) (post : List Nat) (hp : isVarChar (post.headD 0) = false) :
-    spec env (36 :: post) = 36 :: spec env post := by
-  rw [spec]
+theorem spec_dollar_literal (env : List (List Nat)) (b : Bool) (post : List Nat)
+    (hp : isVarChar (post.headD 0) = false) :
+    specFrom env b (36 :: post) = 36 :: specFrom env false post := by
+  rw [specFrom]
   simp only [hp, Bool.false_eq_true, and_false, if_false]
-  simp
+  simp [isPathDelim]
 
-/-- A `~` followed by the end of the string, `/` or `:` is replaced by HOME's value when HOME is set. -/
+/-- A `~` that stands alone as a path component — the start of the string or a delimiter before
+it, the end of the string, `/` or `:` after it — is replaced by HOME's value when HOME is set. -/
 theorem spec_tilde_expands (env : List (List Nat)) (post v : List Nat)
     (hp : post = [] ∨ post.headD 0 = 47 ∨ post.headD 0 = 58)
-    (hv : findEnv env [72, 79, 77, 69] = some v) :
-    spec env (126 :: post) = v ++ spec env post := by
+    (hv : findEnv env homeName = some v) :
+    specFrom env true (126 :: post) = v ++ specFrom env false post := by
   have hd : isPathDelim (post.headD 0) = true := by
     rcases hp with hp | hp | hp
     · subst hp; decide
     · rw [hp]; decide
     · rw [hp]; decide
-  rw [spec]
+  rw [specFrom]
   simp only [hd]
-  simp [varText, homeRef, hv]
+  simp [homeText, hv]
+
+/-- The same at string level: plain text that is empty or ends in `/` or `:`, then `~`, then the
+end of the string or a delimiter. -/
+theorem spec_tilde_component (env : List (List Nat)) (pre post v : List Nat)
+    (h1 : 36 ∉ pre) (h2 : 126 ∉ pre) (hpre : endsDelim true pre = true)
+    (hp : post = [] ∨ post.headD 0 = 47 ∨ post.headD 0 = 58)
+    (hv : findEnv env homeName = some v) :
+    spec env (pre ++ 126 :: post) = pre ++ v ++ specFrom env false post := by
+  rw [spec, spec_plain_prefix env true pre _ h1 h2, hpre, spec_tilde_expands env post v hp hv]
+  simp
+
+/-- With HOME unset a lone `~` stays as written. -/
+theorem spec_tilde_home_unset (env : List (List Nat)) (b : Bool) (post : List Nat)
+    (hv : findEnv env homeName = none) :
+    specFrom env b (126 :: post) = 126 :: specFrom env false post := by
+  rw [specFrom]
+  have h126 : isPathDelim 126 = false := by decide
+  split
+  · rename_i h; exact absurd h.1 (by decide)
+  · split
+    · simp [homeText, hv]
+    · simp [h126]
 
 /-- A `~` directly followed by any other character is never expanded. -/
-theorem spec_tilde_before_other (env : List (List Nat)) (c : Nat) (post : List Nat)
+theorem spec_tilde_before_other (env : List (List Nat)) (b : Bool) (c : Nat) (post : List Nat)
     (hc : c ≠ 47 ∧ c ≠ 58 ∧ c ≠ 0) :
-    spec env (126 :: c :: post) = 126 :: spec env (c :: post) := by
+    specFrom env b (126 :: c :: post) = 126 :: specFrom env false (c :: post) := by
   have hd : isPathDelim c = false := by
     simp [isPathDelim, hc.1, hc.2.1, hc.2.2]
-  rw [spec]
-  simp [hd]
+  rw [specFrom]
+  have h126 : isPathDelim 126 = false := by decide
+  simp [hd, h126]
+
+/-- A `~` directly preceded by anything but a delimiter (plain text as in `a-~/b`, or the end of a
+reference as in `$X~`) is copied, whatever follows it. -/
+theorem spec_tilde_after_other (env : List (List Nat)) (post : List Nat) :
+    specFrom env false (126 :: post) = 126 :: specFrom env false post := by
+  rw [specFrom]
+  simp [isPathDelim]
+
+/-- The same at string level: plain text ending in a byte that is not a delimiter, then `~`. -/
+theorem spec_tilde_glued (env : List (List Nat)) (pre post : List Nat)
+    (h1 : 36 ∉ pre) (h2 : 126 ∉ pre) (hpre : endsDelim true pre = false) :
+    spec env (pre ++ 126 :: post) = pre ++ 126 :: specFrom env false post := by
+  rw [spec, spec_plain_prefix env true pre _ h1 h2, hpre, spec_tilde_after_other]
 
 /-- `find_env` returns the value of the first `NAME=value` entry with exactly that name. -/
 theorem findEnv_first (pre post : List (List Nat)) (name v : List Nat) (hname : 61 ∉ name)
@@ -115,5 +178,14 @@ theorem findEnv_first (pre post : List (List Nat)) (name v : List Nat) (hname : 
 -- "a$X:~/b$Y" with X=1, HOME=/h, Y unset
 example : expand [[88, 61, 49], [72, 79, 77, 69, 61, 47, 104]] [97, 36, 88, 58, 126, 47, 98, 36, 89]
     = some [97, 49, 58, 47, 104, 47, 98, 36, 89] := by decide
+-- "a-~/b" and "$X~" (X=1) with HOME=/h: the '~' is not a component of its own
+example : expand [[88, 61, 49], [72, 79, 77, 69, 61, 47, 104]] [97, 45, 126, 47, 98]
+    = some [97, 45, 126, 47, 98] := by decide
+example : expand [[88, 61, 49], [72, 79, 77, 69, 61, 47, 104]] [36, 88, 126]
+    = some [49, 126] := by decide
+-- "~:~" with HOME unset stays, with HOME=/h both are replaced
+example : expand [[88, 61, 49]] [126, 58, 126] = some [126, 58, 126] := by decide
+example : expand [[72, 79, 77, 69, 61, 47, 104]] [126, 58, 126] = some [47, 104, 58, 47, 104] := by decide
+example : endsDelim true [97, 47] = true ∧ endsDelim true [97, 45] = false := by decide
 
 end Zix.C16
